@@ -31,6 +31,8 @@ var checks = map[string]*check{
 			{Name: "routing-1id", Kind: "explore", Scen: "mux_route", Inst: inst("single", "single"), Depths: depths([]int{3}, []int{3, 4, 5}), Budget: budget(2*time.Minute, 10*time.Minute)},
 			{Name: "routing-2id", Kind: "explore", Scen: "mux_route", Inst: inst("pairs", "pairs-all"), Depths: depths([]int{2}, []int{2, 3}), Budget: budget(3*time.Minute, 20*time.Minute)},
 			{Name: "concurrent-dispense", Kind: "explore", Scen: "conc_ops", Inst: inst("c06", "c06"), Depths: depths([]int{2}, []int{2, 3}), Budget: budget(2*time.Minute, 10*time.Minute)},
+			// explicit ids: the same number outstanding in both directions at once, ids 0 / 2^31 / 2^32-1
+			{Name: "id-values", Kind: "explore", Scen: "mux_route", Inst: inst("ids", "ids"), Depths: depths([]int{2}, []int{2, 3}), Budget: budget(2*time.Minute, 10*time.Minute)},
 			// a dialled connection used again 6 s later with 400 KiB in each direction (beyond yamux's window)
 			{Name: "late-bulk", Kind: "explore", Scen: "mux_route", Inst: inst("late", "late"), Depths: depths([]int{2}, []int{2, 3}), Budget: budget(2*time.Minute, 10*time.Minute)},
 			// 300 ids outstanding at once (default schedule)
@@ -51,6 +53,8 @@ var checks = map[string]*check{
 		Parts: []part{
 			{Name: "routing-1id", Kind: "explore", Scen: "grpc_route", Inst: inst("single", "single"), Depths: depths([]int{2}, []int{2, 3}), Budget: budget(2*time.Minute, 10*time.Minute)},
 			{Name: "routing-2id", Kind: "explore", Scen: "grpc_route", Inst: inst("pairs", "pairs-all"), Depths: depths([]int{1}, []int{1, 2}), Budget: budget(3*time.Minute, 25*time.Minute)},
+			// explicit ids: the same number outstanding in both directions at once, ids 0 / 2^31 / 2^32-1
+			{Name: "id-values", Kind: "explore", Scen: "grpc_route", Inst: inst("ids", "ids"), Depths: depths([]int{1}, []int{1, 2}), Budget: budget(2*time.Minute, 10*time.Minute)},
 			{Name: "tls-and-address-translation", Kind: "explore", Scen: "grpc_route", Inst: inst("variants", "variants-thorough"), Depths: depths([]int{1}, []int{1, 2}), Budget: budget(3*time.Minute, 15*time.Minute)},
 			// real processes behind a container-like custom runner that translates (and validates) socket addresses
 			{Name: "real-runner", Kind: "enum", Bin: "e3.test", Test: "TestC07Proc"},
@@ -92,6 +96,8 @@ var checks = map[string]*check{
 			{Name: "with-traffic-single", Kind: "explore", Scen: "grpcmux_seq", Inst: inst("traffic-single", "traffic-single"), Depths: depths([]int{2}, []int{2, 3}), Budget: budget(2*time.Minute, 10*time.Minute)},
 			{Name: "with-traffic-pairs", Kind: "explore", Scen: "grpcmux_seq", Inst: inst("traffic-pairs", "traffic-pairs"), Depths: depths([]int{1}, []int{1, 2}), Budget: budget(3*time.Minute, 15*time.Minute)},
 			// each established id is dialled a second time while its listener is serving
+			// caller-chosen ids at the edges of uint32 (0, 1, 2^31, 2^32-1)
+			{Name: "id-values", Kind: "explore", Scen: "grpcmux_seq", Inst: inst("ids", "ids"), Depths: depths([]int{1}, []int{1, 2}), Budget: budget(2*time.Minute, 10*time.Minute)},
 			// an id accepted again after its first listener was closed (server stopped, AcceptAndServe returned)
 			{Name: "id-reuse", Kind: "explore", Scen: "grpcmux_seq", Inst: inst("reuse", "reuse"), Depths: depths([]int{1}, []int{1, 2}), Budget: budget(2*time.Minute, 10*time.Minute)},
 			{Name: "redial", Kind: "explore", Scen: "grpcmux_seq", Inst: inst("redial", "redial"), Depths: depths([]int{1}, []int{1, 2}), Budget: budget(2*time.Minute, 10*time.Minute)},
